@@ -75,9 +75,13 @@ func (i MessageIntegrity) AddTo(msg *Message) error {
 	length := msg.Length
 	// Adjusting m.Length to contain MESSAGE-INTEGRITY TLV.
 	msg.Length += messageIntegritySize + attributeHeaderSize
-	msg.WriteLength()                                // writing length to m.Raw
-	v := newHMAC(i, msg.Raw, msg.Raw[len(msg.Raw):]) // calculating HMAC for adjusted m.Raw
-	msg.Length = length                              // changing m.Length back
+	msg.WriteLength() // writing length to m.Raw
+	// m.Raw can hold bytes after the message (Decode keeps what follows it in
+	// the buffer), the input of HMAC is the message only.
+	end := messageHeaderSize + int(length)
+	msg.grow(end)
+	v := newHMAC(i, msg.Raw[:end], msg.Raw[len(msg.Raw):]) // calculating HMAC for adjusted m.Raw
+	msg.Length = length                                    // changing m.Length back
 
 	// Copy hmac value to temporary variable to protect it from resetting
 	// while processing m.Add call.
